@@ -14,9 +14,9 @@ from ..sched import enumerate_schedules, run_scheduled
 
 ID = "C02"
 LEVEL = "exploration"
-BUDGET = {"quick": 1200, "thorough": 16000}
+BUDGET = {"quick": 1200, "thorough": 8000}
 SHARDS = {"quick": 8, "thorough": 16}
-SCHED_CAP = {"quick": 24, "thorough": 240}
+SCHED_CAP = {"quick": 24, "thorough": 120}
 RULE = (
     "Hypothesis-generated programs: gate-free DAGs and control-flow programs (1-3 if/else or route gates incl. multi-target, fallback, "
     "None, END, default_open either way; optional data cycle; optional emit/wait_for pair; optional failing node), max_iterations "
